@@ -124,3 +124,36 @@ def block_x_validity_diffs(src_fn, ref_fn, max_block_mem, kernel_shape, overlap=
             for (r, c) in np.argwhere(np.isnan(xw) != np.isnan(xb)):
                 out.add((int(w.row_off + r), int(w.col_off + c)))
     return sorted(out)
+
+
+def band_footprints_case(work, rng, model='gain-offset', tag='bf', threads=1):
+    """Two source bands with DIFFERENT footprints on the reference's own grid: band 1 holds no data in one half of the image (whole blocks of it are
+    empty), band 2 is valid everywhere; reference band b = a_b * source band b + c_b wherever that band is valid.  Fused on the source grid in >= 8
+    blocks, parameter image written.  Returns what the checks judge: the result, the source, the coefficients, the per-band validity."""
+    H, W = rng.randint(48, 64), rng.randint(48, 64)
+    off = (rng.randint(1, 3), rng.randint(1, 3))
+    g = synth.Geom(1.0, 1, *rng.choice([(16.0, 48.0), (300000.0, 6200000.0)]), (H + off[0] + 2, W + off[1] + 2), off, (H, W))
+    src = fz.texture(rng, (H, W), 2, lo=20, hi=200).astype('float32')
+    valid = np.ones((2, H, W), bool)
+    side = rng.choice(['west', 'east', 'north', 'south'])
+    if side == 'west':
+        valid[0, :, :W // 2] = False
+    elif side == 'east':
+        valid[0, :, W // 2:] = False
+    elif side == 'north':
+        valid[0, :H // 2] = False
+    else:
+        valid[0, H // 2:] = False
+    coeffs = [(rng.choice([0.5, 1.5, 2.0]), rng.choice([-8.0, 4.0, 16.0])), (rng.choice([0.75, 1.25, 3.0]), rng.choice([-4.0, 8.0, 32.0]))]
+    ref = fz.texture(rng, g.ref_shape, 2, lo=30, hi=180).astype('float32')
+    for b, (a, c) in enumerate(coeffs):
+        ref[b, off[0]:off[0] + H, off[1]:off[1] + W] = np.where(valid[b], np.float32(a) * src[b] + np.float32(c), ref[b, off[0]:off[0] + H, off[1]:off[1] + W])
+    sfn, rfn = work / f'{tag}_src.tif', work / f'{tag}_ref.tif'
+    synth.write_tif(sfn, np.where(valid, src, np.float32('nan')), g.src_transform)
+    synth.write_tif(rfn, ref, g.ref_transform)
+    mbm, nblk = fz.pick_block_mem(sfn, rfn, 'src', rng.choice([8, 16]), (3, 3))
+    res = fz.fuse(sfn, rfn, work / f'{tag}_out.tif', model=model, kernel_shape=(3, 3), proc_crs='src', max_block_mem=mbm, threads=threads, force=True,
+                  src_bands=[1, 2], ref_bands=[1, 2], model_config=dict(r2_inpaint_thresh=None), out_profile=dict(dtype='float32', nodata=float('nan')))
+    desc = dict(geom=g.describe(), bands=2, band_1_has_no_data_in=side, model=model, kernel_shape=[3, 3], proc_crs='src', blocks=nblk, max_block_mem=mbm, threads=threads,
+                coefficients=coeffs)
+    return dict(res=res, src=src, valid=valid, coeffs=coeffs, desc=desc, nblk=nblk)
